@@ -369,6 +369,24 @@ def extra_obligations(w, tier, seed):
                 if isinstance(st, ast.Try):
                     for h in st.handlers: visit(h.body, in_loop)
         visit(fn.body, False)
+    # F (scoping, shape): relctx.unpack_var.walk recurses into a tuple's elements BEFORE it creates the FROM item that defines the element columns (`_tN`); that item must go
+    #   to the FRONT of the FROM list (`from_clause.insert(0, ...)`): a function in FROM only sees the items to its left, and the nested items unnest columns the outer one defines
+    fn_u, _ = repo.find_def(REL, 'unpack_var')
+    walks = [n for n in ast.walk(fn_u) if isinstance(n, ast.FunctionDef) and n.name == 'walk']
+    adds = [n for w_ in walks for n in ast.walk(w_) if isinstance(n, ast.Call) and isinstance(n.func, ast.Attribute) and n.func.attr in ('insert', 'append', 'extend')
+            and ast.unparse(n.func.value).endswith('from_clause')]
+    ok_u = len(walks) == 1 and len(adds) >= 1 and all(n.func.attr == 'insert' and n.args and ast.unparse(n.args[0]) == '0' for n in adds)
+    out.append(ob('scan/unpack_var/outer-item-first', 'relctx.unpack_var.walk adds every range function at the front of from_clause (insert(0, ..)): the item defining the tuple columns precedes the nested ones',
+                  ok_u, '; '.join('line %d: %s' % (n.lineno, ast.unparse(n)[:60]) for n in adds) or 'walk() not found', undecided=(len(walks) != 1 or not adds)))
+    # G (determinism, shape): the grouping keys collected by edgeql/desugar_group.collect_grouping_atoms are iterated by pgsql/compiler/group.py to order the key columns,
+    #   grouping(...) arguments and the ARRAY of key names: the accumulator must be an ORDERED set (a plain set gives hash order, which differs from process to process)
+    fn_g, _ = repo.find_def('edb/edgeql/desugar_group.py', 'collect_grouping_atoms')
+    inits = [ast.unparse(n.value) for n in ast.walk(fn_g) if isinstance(n, (ast.Assign, ast.AnnAssign)) and n.value is not None
+             and ast.unparse(n.targets[0] if isinstance(n, ast.Assign) else n.target) == 'atoms']
+    rets = [ast.unparse(n.value) for n in ast.walk(fn_g) if isinstance(n, ast.Return) and n.value is not None and isinstance(n.value, ast.Name)]
+    ok_g = inits == ['ordered.OrderedSet()'] and rets == ['atoms']
+    out.append(ob('scan/collect_grouping_atoms/ordered', 'desugar_group.collect_grouping_atoms accumulates the grouping keys in an ordered.OrderedSet and returns it',
+                  ok_g, 'atoms = %s; returns %s' % (inits, rets), undecided=not (inits and rets) or not any('set' in i.lower() for i in inits)))
     out.append(ob('scan/relctx/lateral-handed-on', 'relctx.py: every function taking `lateral` passes lateral=lateral to the range-variable builder whose result it returns',
                   funcs >= 5 and sites >= 10 and not bad, '; '.join(bad[:4]) or '%d functions, %d builder calls' % (funcs, sites), undecided=(funcs < 5 or sites < 10) and not bad))
     return out
